@@ -394,7 +394,37 @@ def run_shard(shard):
         acc.viol[key][0] += count - 1
     for key, case, detail in buffer_history(t, acc):
         acc.violation(key, case, detail)
+    if s11 == 0 and s22 == 0:
+        for key, case, detail in negative_zero(t, acc):
+            acc.violation(key, case, detail)
     return acc
+
+
+def negative_zero(t, acc=None):
+    """Tensors whose normal components are all zero, once written with +0.0 and once with -0.0 (a unit shear state
+    multiplied by a negative load): equal tensors, so every function returns equal numbers; a zero indicator means sign +1."""
+    tz = t[t[:, 2] == 0]
+    tneg = tz.copy()
+    tneg[:, :3] = -0.0
+    with warnings.catch_warnings():
+        warnings.simplefilter("ignore")
+        pos, neg = _call_columns(tz), _call_columns(tneg)
+        negs = _call_scalars(tneg[:50])
+        nega = _call_accessor(tneg)[0]
+    if acc is not None:
+        acc.cases += len(tz)
+        acc.evaluations += 4 * len(tz) * len(SCALAR_FUNCS)
+    out = []
+    for f in SCALAR_FUNCS:
+        for style, got, want in (("column", neg[f], pos[f]), ("scalar", negs[f], pos[f][:50]), ("accessor", nega[f], pos[f])):
+            a, b = np.asarray(got, dtype=float), np.asarray(want, dtype=float)
+            bad = ~((a == b) | (np.isnan(a) & np.isnan(b)))
+            if bad.any():
+                i = int(np.argmax(bad))
+                out.append(("C17/%s/normal-components-minus-zero/%s" % (f, style), {"tensor": tneg[i].tolist(), "style": "negzero"},
+                            {"with_-0.0": float(a[i]), "with_+0.0": float(b[i])}))
+                break
+    return out
 
 
 def buffer_history(t, acc=None):
@@ -416,6 +446,29 @@ def buffer_history(t, acc=None):
         acc.evaluations += 3 * len(t) * (len(SCALAR_FUNCS) + 1)
         acc.cases += len(t)
     out = []
+    # ... and on mesh-sized columns (>= 20000 rows; implementations may switch to other code above some size): the result
+    # of the first call is still held by the caller when the function is called again for other data of the same shape
+    reps = -(-20000 // len(t))
+    big = np.tile(t, (reps, 1))
+    cols = [np.ascontiguousarray(big[:, i]) for i in range(6)]
+    cols2 = [2.0 * c for c in cols]
+    with warnings.catch_warnings():
+        warnings.simplefilter("ignore")
+        for f in SCALAR_FUNCS:
+            held = getattr(EQ, f)(*cols)
+            snapshot = np.array(held, dtype=float, copy=True)
+            second = np.asarray(getattr(EQ, f)(*cols2), dtype=float)
+            now = np.asarray(held, dtype=float)
+            if not np.array_equal(now, snapshot, equal_nan=True):
+                i = int(np.argmax(~((now == snapshot) | (np.isnan(now) & np.isnan(snapshot)))))
+                out.append(("C17/%s/result-held-by-the-caller-changed-by-the-next-call" % f, {"tensor": big[i].tolist(), "style": "buffers"},
+                            {"rows": len(big), "held_result_was": float(snapshot[i]), "held_result_is": float(now[i])}))
+            elif not np.array_equal(second[:len(t)], fresh[f], equal_nan=True):
+                i = int(np.argmax(~((second[:len(t)] == fresh[f]) | (np.isnan(second[:len(t)]) & np.isnan(fresh[f])))))
+                out.append(("C17/%s/mesh-sized-columns-differ-from-short-columns" % f, {"tensor": (2.0 * t[i]).tolist(), "style": "buffers"},
+                            {"rows": len(big), "long_column": float(second[i]), "short_column": float(fresh[f][i])}))
+    if acc is not None:
+        acc.evaluations += 2 * len(big) * len(SCALAR_FUNCS)
     for f in list(SCALAR_FUNCS) + ["principals"]:
         a, b = again[f], fresh[f]
         bad = ~((a == b) | (np.isnan(a) & np.isnan(b)))
@@ -433,5 +486,8 @@ def replay(case):
     style = case.get("style", "column")
     if style == "buffers":
         return [(k, d) for k, c, d in buffer_history(t)]
+    if style == "negzero":
+        t[:, :3] = 0.0
+        return [(k, d) for k, c, d in negative_zero(t)]
     viol, _, _ = check_block(t, [(case["rotation"], float(case["scale"]))], "all" if style == "scalar" else "none")
     return [(k, d) for k, c, d, _ in viol]
